@@ -158,6 +158,7 @@ Record hlayer := {
 
 Inductive wkind := WConnect | WRequest.
 Record write := {
+  w_pm : pmode;          (* mode of the client connection the request belongs to *)
   w_ord : N;
   w_hop : addr;          (* the TCP peer *)
   w_via : bool;          (* the TCP peer is the upstream proxy *)
@@ -186,7 +187,7 @@ Definition proxy_addr (pm : pmode) : addr := match pm with PUpstream p => p | _ 
 Definition hop_of (pm : pmode) (c : sconn) : addr := if c.(sc_via) then proxy_addr pm else c.(sc_addr).
 
 Definition mk_write (pm : pmode) (c : sconn) (tunnelled : bool) (k : wkind) (fs : list field) : write :=
-  {| w_ord := c.(sc_ord); w_hop := hop_of pm c; w_via := c.(sc_via); w_tunnelled := tunnelled;
+  {| w_pm := pm; w_ord := c.(sc_ord); w_hop := hop_of pm c; w_via := c.(sc_via); w_tunnelled := tunnelled;
      w_kind := k; w_fields := fs |}.
 
 Definition authority (a : addr) : bytes := fst a ++ [x3a] ++ dec_of_N (snd a).
@@ -210,6 +211,7 @@ Inductive event :=
        (hs : list field)              (* header fields as sent by the client *)
        (proxy_ok : bool)              (* answer of the upstream proxy if a CONNECT is sent to it now: 2xx or not *)
 | EConnect (a : addr) (inner_tls : bool)   (* CONNECT a; the client then speaks TLS (or plain HTTP) in the tunnel *)
+           (proxy_ok : bool)               (* as in EReq *)
 | ESrvClose (ord : N).                     (* the peer of server connection ord closes it *)
 
 Definition ctx_conn (ord : N) (a : addr) (tls : bool) : sconn :=
@@ -292,12 +294,26 @@ Definition step (cfg : config) (in_set : bool) (st : cstate) (ev : event) : csta
           let (st', ws) := send_request cfg st tls a hs' proxy_ok in
           (st', ws, false)
       end
-  | EConnect a inner_tls =>
+  | EConnect a inner_tls proxy_ok =>
       match st.(cs_layer).(hl_mode) with
       | HTransparent => (dead st, [], false)   (* validate_request: CONNECT outside regular/upstream mode *)
-      | m =>
-          let (l, n) := transparent_layer cfg a inner_tls (is_hupstream m) st.(cs_next) in
+      | HRegular =>
+          let (l, n) := transparent_layer cfg a inner_tls false st.(cs_next) in
           ({| cs_pm := st.(cs_pm); cs_alive := true; cs_next := n; cs_tunnel := true; cs_layer := l |}, [], true)
+      | HUpstream =>
+          if cfg.(c_eager) && inner_tls
+          then (* TlsConfig.tls_clienthello asks for server TLS first: ClientTLSLayer opens context.server, which
+                  HttpUpstreamProxy (send_connect) turns into a CONNECT to the upstream proxy right away; if the proxy
+                  refuses, TLS with the client is established anyway *)
+            let c := {| sc_ord := st.(cs_next); sc_addr := a; sc_tls := true; sc_via := true; sc_connect := true;
+                        sc_alive := proxy_ok |} in
+            ({| cs_pm := st.(cs_pm); cs_alive := true; cs_next := st.(cs_next) + 1; cs_tunnel := true;
+                cs_layer := {| hl_mode := HTransparent; hl_ctx := Some (a, true); hl_via := true; hl_conns := [c] |} |},
+             [mk_write st.(cs_pm) c false WConnect (connect_head cfg a)], true)
+          else
+            ({| cs_pm := st.(cs_pm); cs_alive := true; cs_next := st.(cs_next); cs_tunnel := true;
+                cs_layer := {| hl_mode := HTransparent; hl_ctx := Some (a, inner_tls); hl_via := true; hl_conns := [] |} |},
+             [], true)
       end
   | ESrvClose ord =>
       let l := st.(cs_layer) in
